@@ -71,6 +71,7 @@ def decl_def(ctx: core.Ctx, w: "witness.Witness"):
 
 
 def run(ctx: core.Ctx) -> int:
+    gen_memo(ctx)        # first: purely syntactic, and the evaluators below stop at instance state they do not know
     ctx.rule("DECL-DEF", "header declarations and source definitions agree in name, argument list, return type and modifier")
     ctx.rule("WITNESS", "templates type-check against the declared types for all four control x calibration valuations")
     ctx.rule("TMP-3", "cpp.BasicBlock emits every temporary once, typed double, in cse order, before the first target")
@@ -102,3 +103,119 @@ def run(ctx: core.Ctx) -> int:
     ctx.floor("WITNESS", len(res), 8, "witness TUs (filter and plain model, control x calibration)")
     return core.finish(ctx, explanation="E2 layout interpretation of the generator + iteration inventory rules, temporaries protocol, "
                                         "declaration/definition agreement and compile witnesses", **META)
+
+
+
+EXACT_WRAP = {"tuple", "frozenset", "sorted", "str", "repr", "list"}
+
+
+def gen_memo(ctx: core.Ctx, rel="py/formak/cpp.py"):
+    """GEN-MEMO: what the generator emits for a function is determined by that function's own arguments.  The generator's methods other than
+    __init__ store nothing on the instance -- except a memo `self.C[K] = V` whose key determines the value: every parameter of the method that the
+    cached computation reads occurs WHOLE in the key (itself, or `p.items()` for a mapping, under tuple / frozenset / sorted / str).  A key built
+    from a part of a parameter (`sorted(mapping)`: the reading names only) hands one sensor another sensor's block.  Any other store on the
+    instance outside __init__ is not an enumerated idiom (analysis error, not a verdict)."""
+    import ast
+    from .. import effects
+    ctx.rule("GEN-MEMO", "generator methods other than __init__ store nothing on the instance except memo entries whose key contains every parameter the cached value reads, whole")
+    mod = ctx.parse(rel)
+    n = 0
+    # construction helpers: methods (of any class of the module, base classes included) called only from __init__ / from other construction
+    # helpers are part of construction
+    allm = {}
+    for cls in [c for c in mod.body if isinstance(c, ast.ClassDef)]:
+        for f in cls.body:
+            if isinstance(f, ast.FunctionDef):
+                allm.setdefault(f.name, []).append(f)
+
+    def self_calls(f):
+        return {x.func.attr for x in ast.walk(f) if isinstance(x, ast.Call) and isinstance(x.func, ast.Attribute) and isinstance(x.func.value, ast.Name)
+                and x.func.value.id in ("self", "cls") and x.func.attr in allm} | \
+               {x.func.attr for x in ast.walk(f) if isinstance(x, ast.Call) and isinstance(x.func, ast.Attribute) and isinstance(x.func.value, ast.Call)
+                and isinstance(x.func.value.func, ast.Name) and x.func.value.func.id == "super" and x.func.attr in allm}
+    ctor = {"__init__", "__post_init__"}
+    changed = True
+    while changed:
+        changed = False
+        cand = set()
+        for nm in ctor:
+            for f in allm.get(nm, []):
+                cand |= self_calls(f)
+        for nm in cand - ctor:
+            used_elsewhere = any(nm in self_calls(f) for on, fs in allm.items() if on not in ctor and on != nm for f in fs)
+            if not used_elsewhere:
+                ctor.add(nm)
+                changed = True
+    for cls in [c for c in mod.body if isinstance(c, ast.ClassDef)]:
+        methods = {f.name: f for f in cls.body if isinstance(f, ast.FunctionDef)}
+        for fn in methods.values():
+            if fn.name in ctor:
+                continue
+            n += 1
+            q = f"{cls.name}.{fn.name}"
+            ws = [w_ for w_ in effects.writes(fn) if w_.target.split("[")[0].split(".")[0] == "self"]
+            if not ws:
+                ctx.oblige("GEN-MEMO", f"{rel}:{q}", "stores nothing on the instance", True, file=rel, func=q, construct="stateless")
+                continue
+            params = [a.arg for a in fn.args.posonlyargs + fn.args.args + fn.args.kwonlyargs if a.arg != "self"]
+            defs = {}
+            for a in ast.walk(fn):
+                if isinstance(a, ast.Assign) and len(a.targets) == 1 and isinstance(a.targets[0], ast.Name):
+                    defs.setdefault(a.targets[0].id, []).append(a.value)
+
+            def res(e, depth=0):
+                class T(ast.NodeTransformer):
+                    def visit_Name(self, nd):
+                        if isinstance(nd.ctx, ast.Load) and nd.id not in params and len(defs.get(nd.id, [])) == 1 and depth < 5:
+                            return res(defs[nd.id][0], depth + 1)
+                        return nd
+                import copy
+                return T().visit(copy.deepcopy(e))
+
+            def is_mapping(pn, f=fn, depth=0):
+                for x in ast.walk(f):
+                    if isinstance(x, ast.Attribute) and x.attr in ("items", "values", "keys", "get") and isinstance(x.value, ast.Name) and x.value.id == pn:
+                        return True
+                    if isinstance(x, ast.Call) and isinstance(x.func, ast.Attribute) and isinstance(x.func.value, ast.Name) and x.func.value.id == "self" \
+                            and x.func.attr in methods and depth < 3:
+                        cal = methods[x.func.attr]
+                        cpar = [a.arg for a in cal.args.args if a.arg != "self"]
+                        for i, a in enumerate(x.args):
+                            if isinstance(a, ast.Name) and a.id == pn and i < len(cpar) and is_mapping(cpar[i], cal, depth + 1):
+                                return True
+                return False
+
+            def whole(k, pn, mapping):
+                """does the key expression k contain parameter pn whole?"""
+                if isinstance(k, ast.Name):
+                    return k.id == pn and not mapping
+                if isinstance(k, (ast.Tuple, ast.List)):
+                    return any(whole(e, pn, mapping) for e in k.elts)
+                if isinstance(k, ast.Call) and isinstance(k.func, ast.Name) and k.func.id in EXACT_WRAP and len(k.args) >= 1:
+                    a0 = k.args[0]
+                    if mapping and isinstance(a0, ast.Call) and isinstance(a0.func, ast.Attribute) and a0.func.attr == "items" and isinstance(a0.func.value, ast.Name) \
+                            and a0.func.value.id == pn:
+                        return True
+                    if k.func.id in ("str", "repr") and isinstance(a0, ast.Name) and a0.id == pn:
+                        return True
+                    return whole(a0, pn, mapping)
+                if isinstance(k, ast.Call) and isinstance(k.func, ast.Name) and k.func.id == "id" and len(k.args) == 1 and isinstance(k.args[0], ast.Name):
+                    return k.args[0].id == pn
+                return False
+            for st in ast.walk(fn):
+                if not (isinstance(st, ast.Assign) and len(st.targets) == 1 and isinstance(st.targets[0], ast.Subscript)
+                        and isinstance(st.targets[0].value, ast.Attribute) and isinstance(st.targets[0].value.value, ast.Name) and st.targets[0].value.value.id == "self"):
+                    continue
+                key = res(st.targets[0].slice)
+                val = res(st.value)
+                reads = [p_ for p_ in params if any(isinstance(x, ast.Name) and x.id == p_ for x in ast.walk(val))]
+                missing = [p_ for p_ in reads if not whole(key, p_, is_mapping(p_))]
+                ws = [w_ for w_ in ws if w_.line != st.lineno]
+                ctx.oblige("GEN-MEMO", f"{rel}:{q}", f"memo `{ast.unparse(st.targets[0])[:50]}` keyed by `{ast.unparse(key)[:50]}`; the value reads {reads}", not missing,
+                           file=rel, func=q, construct="memo key:" + ast.unparse(key)[:50], line=st.lineno,
+                           msg=f"{q} caches `{ast.unparse(st.value)[:50]}...` under the key `{ast.unparse(key)[:60]}`, which does not contain the parameter(s) {missing} "
+                               f"whole: two calls that differ only in the rest of {missing} (two sensors with the same reading names but different models) "
+                               f"get the same cached block -- the second function returns the first one's expressions")
+            for w_ in ws:
+                ctx.error(f"GEN-MEMO: {rel}:{w_.line} {q} stores on the instance (`{w_.text[:70]}`): not an enumerated idiom (memo with a whole-parameter key)")
+    ctx.floor("GEN-MEMO", n, 15, "generator methods other than __init__")
